@@ -24,7 +24,14 @@
         (KnownF23 = a Cycle of depth >= 2 or an open subterm shared by two binders is reachable;
          proved only where no Cycle is reachable at all — the recursive fragment is missing)
      compat_trans : is_compatible P a b = true -> is_compatible P b c = true ->
-        is_compatible P a c = true        (not proved; checked on every generated triple)
+        is_compatible P a c = true        (not proved; checked on every generated triple: ~31 k per
+        quick run, 0 failures since the F29 repair.  Sizing of `compat_trans_partial` on the
+        cycle-free fragment: a fuel-indexed reference relation `subref` mirroring the ALL-mode arms
+        without assumptions; (1) check_sound generalised from `sub` to any relation closed under
+        the arm rules (the proof in RelProofs.v only uses those rules), (2) the converse
+        `subref => check_rel = true for every assumption set` with totality for fuel > id-sum under
+        `topo`, (3) transitivity of `subref` by induction on a+b+c with the union-left/union-right
+        inversion lemmas; about 450 lines.)
      overlap_complete : forall P a b, closedb P a = true -> closedb P b = true ->
         (exists n v, inhab P n [] v a /\ inhab P n [] v b) -> types_overlap P a b = true
         (false as stated: F25 for callable/process; recursive first-order fragment unproved)
